@@ -156,6 +156,7 @@ def member_sets():
         base.insert(k, CORRUPT)
         yield base
     yield [NOISE[1], NOISE[0]]               # only an empty file and a directory
+    yield [("z0.txt", b""), DOCS[0], DOCS[1], ("sub/z1.md", b""), DOCS[2], DOCS[5]]     # zero-length files before non-empty ones
 
 
 def observe(r):
@@ -163,7 +164,7 @@ def observe(r):
     return [m.filename, m.file_path, json.loads(json.dumps(r.to_json(), default=repr, sort_keys=True))]
 
 
-def expected(entries, archive_name):
+def expected(entries, archive_name, with_origin=False):
     """direct extraction of every visible supported member on its own, in archive order"""
     from sharepoint2text.parsing.router import get_extractor, is_supported_file
     out = []
@@ -179,7 +180,7 @@ def expected(entries, archive_name):
             res = list(get_extractor(base)(io.BytesIO(data), path=f"{archive_name}!/{name}"))
         except Exception:  # noqa  a corrupt member has no results
             continue
-        out.extend(observe(r) for r in res)
+        out.extend((observe(r), len(data)) if with_origin else observe(r) for r in res)
     return out
 
 
@@ -194,22 +195,37 @@ def run_archive(data, archive_name):
     return out, None
 
 
-def first_diff(got, want):
-    for i, (g, w) in enumerate(itertools.zip_longest(got, want)):
-        if g != w:
-            gs = None if g is None else [g[0], g[1], str(g[2].get("content", g[2]))[:60]]
-            ws = None if w is None else [w[0], w[1], str(w[2].get("content", w[2]))[:60]]
-            return f"result #{i}: got {gs}, direct extraction gives {ws}"
+def first_diff(got, want, optional=()):
+    """first difference between the result lists; `optional` = indices of `want` that may be absent from `got`
+    (the input class of a recorded finding: the affected member's own result), everything else must agree in order"""
+    def short(x):
+        return None if x is None else [x[0], x[1], str(x[2].get("content", x[2]))[:60]]
+    i = j = 0
+    while i < len(got) or j < len(want):
+        g = got[i] if i < len(got) else None
+        w = want[j] if j < len(want) else None
+        if g is not None and g == w:
+            i, j = i + 1, j + 1
+        elif w is not None and j in optional:
+            j += 1
+        else:
+            return f"result #{i}: got {short(g)}, direct extraction gives {short(w)}"
     return None
 
 
 def recorded(label, entries):
     """input classes of the recorded known findings (known_findings.json); each has its own witness replay"""
-    if label.startswith("7z") and any(d == b"" for _n, d in entries):
-        return "F25"
     if label == "tar" and not entries:
         return "F27"
     return None
+
+
+def optional_results(label, entries, aname):
+    """F25 (recorded): in a 7z archive the result of a ZERO-LENGTH member itself may be missing; every other member's
+    result, the order, and the absence of errors are still required"""
+    if not label.startswith("7z"):
+        return ()
+    return {k for k, (_r, n) in enumerate(expected(entries, aname, with_origin=True)) if n == 0}
 
 
 def matrix(layout_filter=None, sets=None, skip_recorded=True):
@@ -223,7 +239,7 @@ def matrix(layout_filter=None, sets=None, skip_recorded=True):
             data = build(entries)
             got, err = run_archive(data, aname)
             want = expected(entries, aname)
-            d = first_diff(got, want)
+            d = first_diff(got, want, optional_results(label, entries, aname) if skip_recorded else ())
             if err is not None or d is not None:
                 return {"target": "archive_extractor.py::read_archive", "inputs": {"layout": label, "members": [[n, None if b is None else f"{len(b)} bytes"] for n, b in entries],
                                                                                    "archive_hex": data.hex() if len(data) < 1500 else f"{len(data)} bytes"},
